@@ -87,6 +87,8 @@ class PathEnumerator(object):
             for t in s.targets:
                 if isinstance(t, ast.Name):
                     self.env[t.id] = v
+                elif isinstance(t, (ast.Subscript, ast.Attribute)):
+                    self.env[unparse(t)] = v
                 elif isinstance(t, ast.Tuple):
                     for e in t.elts:
                         if isinstance(e, ast.Name):
@@ -125,7 +127,9 @@ class PathEnumerator(object):
         if isinstance(e, ast.Constant):
             return e.value
         txt = unparse(e)
-        if txt in self.bindings:
+        if isinstance(e, (ast.Subscript, ast.Attribute)) and txt in self.env:
+            return self.env[txt]
+        if txt in self.bindings and not (isinstance(e, ast.Name) and e.id in self.env):
             return self.bindings[txt]
         if isinstance(e, ast.Name):
             if e.id in self.env:
@@ -147,9 +151,30 @@ class PathEnumerator(object):
             return Sym("expr", node=self._subst(e))
         if isinstance(e, ast.BinOp) and isinstance(e.op, ast.Add):
             return self._add(self._eval(e.left), self._eval(e.right), e)
+        if isinstance(e, ast.BinOp) and isinstance(e.op, ast.Sub):
+            l, r = self._eval(e.left), self._eval(e.right)
+            if isinstance(l, (int, float)) and isinstance(r, (int, float)):
+                return l - r
+            return Sym("expr", node=self._subst(e))
+        if isinstance(e, ast.UnaryOp) and isinstance(e.op, ast.USub):
+            v = self._eval(e.operand)
+            return -v if isinstance(v, (int, float)) else Sym("expr", node=self._subst(e))
+        if isinstance(e, ast.BoolOp):
+            # value semantics of and/or (x or 1), as far as the operands are concrete
+            vals = []
+            for sub in e.values:
+                v = self._eval(sub)
+                if isinstance(v, Sym):
+                    # value of an and/or over something unknown: an unknown value (its truth
+                    # is decided through the atomizer if it is ever tested)
+                    return Sym("expr", node=self._subst(e))
+                vals.append(v)
+                if bool(v) != isinstance(e.op, ast.And):
+                    return v
+            return vals[-1]
         if isinstance(e, ast.IfExp):
             return self._eval(e.body) if self._truth(e.test) else self._eval(e.orelse)
-        if isinstance(e, (ast.List, ast.Tuple)):
+        if isinstance(e, (ast.List, ast.Tuple, ast.Set)):
             vals = [self._eval(x) for x in e.elts]
             if any(isinstance(v, Sym) for v in vals):
                 return Sym("expr", node=self._subst(e))
@@ -173,6 +198,11 @@ class PathEnumerator(object):
                 txt = "%s.%s" % (unparse(e.args[0]), e.args[1].value)
                 if txt in self.bindings:
                     return self.bindings[txt]
+        if isinstance(f, ast.Name) and f.id in ("max", "min") and e.args and not e.keywords:
+            vals = [self._eval(a) for a in e.args]
+            if all(isinstance(v, (int, float)) and not isinstance(v, bool) for v in vals) and \
+                    len(vals) > 1:
+                return (max if f.id == "max" else min)(vals)
         if isinstance(f, ast.Attribute) and f.attr == "startswith" and len(e.args) == 1:
             recv, arg = self._eval(f.value), self._eval(e.args[0])
             if isinstance(recv, str) and isinstance(arg, str):
@@ -250,12 +280,23 @@ class PathEnumerator(object):
                         return left is right
                     if isinstance(op, ast.IsNot):
                         return left is not right
+                    if isinstance(op, ast.Lt):
+                        return left < right
+                    if isinstance(op, ast.LtE):
+                        return left <= right
+                    if isinstance(op, ast.Gt):
+                        return left > right
+                    if isinstance(op, ast.GtE):
+                        return left >= right
                 except TypeError:
                     pass
             atom = self.atomizer(self._subst(e), self)
             return self.oracle(atom)
         v = self._eval(e)
         if isinstance(v, Sym):
+            if v.kind == "expr" and v.node is not e and isinstance(v.node, ast.BoolOp):
+                # the truth of a stored and/or is the and/or of the truths of its operands
+                return self._truth(v.node)
             atom = self.atomizer(v if v.kind == "filter" else (v.node if v.node is not None else e), self)
             return self.oracle(atom)
         return bool(v)
